@@ -734,7 +734,7 @@ def restore(tree, ref=None):
     if ref is None:
         return {}
     applied = {}
-    inlined = inline_new_helpers(tree, ref)
+    inlined = inline_new_constants(tree, ref["tree"]) + inline_new_helpers(tree, ref)
     if inlined:
         applied["<helpers put back>"] = (len(inlined), 0, True)
     for q, cf in _functions(tree).items():
@@ -1158,10 +1158,10 @@ def _partition(block, x):
     return [g for _, g in groups]
 
 
-def split_webs(fn, info):
+def split_webs(fn, info, counter=None):
     """Rename apart the independent uses of one local name (a loop variable used by two loops, a scratch name reused by the arms of an if/elif chain):
     every web starts by giving the name a value of its own, so no value flows between webs and the renaming cannot be observed."""
-    counter = [0]
+    counter = [0] if counter is None else counter
     skip = set(info.special) | set(info.deferred)
     in_loop = set()
     for lp in ast.walk(fn):
@@ -1227,7 +1227,12 @@ def split_webs(fn, info):
     while todo:
         n = todo.pop()
         if isinstance(n, (ast.FunctionDef, ast.AsyncFunctionDef)):
-            split_webs(n, FnInfo(n))
+            split_webs(n, FnInfo(n), counter)
+            # what a nested function binds is its own, whatever the enclosing function calls its variables
+            ginfo = FnInfo(n)
+            for x in sorted(_local_names(n) - ginfo.special):
+                _rename_all(n, x, f"{x}__s{counter[0]}")
+                counter[0] += 1
         elif not isinstance(n, (ast.Lambda, ast.ClassDef)):
             todo.extend(ast.iter_child_nodes(n))
 
@@ -1318,3 +1323,73 @@ def alpha_key(fn):
     for st in f2.body:
         rec(st, plain)
     return ast.dump(ast.Module(f2.body, []))
+
+
+# ------------------------------------------------------------------------------------------------ named constants the reference does not have
+def inline_new_constants(tree, ref_tree):
+    """A module- or class-level name bound once to a literal, never stored to anywhere else, is the literal."""
+    def level_consts(owner):
+        out = {}
+        for st in owner.body:
+            tgt = None
+            if isinstance(st, ast.Assign) and len(st.targets) == 1 and isinstance(st.targets[0], ast.Name):
+                tgt, val = st.targets[0].id, st.value
+            elif isinstance(st, ast.AnnAssign) and isinstance(st.target, ast.Name) and st.value is not None:
+                tgt, val = st.target.id, st.value
+            if tgt and isinstance(val, ast.Constant) and isinstance(val.value, (str, int, bytes)) and not isinstance(val.value, bool):
+                out[tgt] = (st, val)
+        return out
+    ref_mod = set(level_consts(ref_tree)) | {n.id for st in ref_tree.body for n in ast.walk(st) if isinstance(n, ast.Name) and isinstance(n.ctx, ast.Store)}
+    ref_cls = {c.name: {n.id for st in c.body if not isinstance(st, (ast.FunctionDef, ast.ClassDef)) for n in ast.walk(st) if isinstance(n, ast.Name) and isinstance(n.ctx, ast.Store)}
+               for c in ref_tree.body if isinstance(c, ast.ClassDef)}
+    stores_attr = {n.attr for n in ast.walk(tree) if isinstance(n, ast.Attribute) and not isinstance(n.ctx, ast.Load)}
+    stores_name = {}
+    for n in ast.walk(tree):
+        if isinstance(n, ast.Name) and not isinstance(n.ctx, ast.Load):
+            stores_name[n.id] = stores_name.get(n.id, 0) + 1
+    done = []
+    # class level
+    for c in [c for c in tree.body if isinstance(c, ast.ClassDef)]:
+        for name, (st, val) in level_consts(c).items():
+            if name in ref_cls.get(c.name, ()) or name in stores_attr or stores_name.get(name, 0) != 1:
+                continue
+            if any(isinstance(o, ast.ClassDef) and o is not c and any(isinstance(s_, (ast.Assign, ast.AnnAssign, ast.FunctionDef)) and name in ast.unparse(s_).split("=")[0].split("(")[0].split() for s_ in o.body) for o in tree.body):
+                continue                                    # another class has an attribute of that name
+            hit = 0
+            class R(ast.NodeTransformer):
+                def visit_Attribute(self, node):
+                    nonlocal hit
+                    self.generic_visit(node)
+                    if node.attr == name and isinstance(node.ctx, ast.Load) and isinstance(node.value, ast.Name) and node.value.id in ("self", "cls", c.name):
+                        hit += 1
+                        return copy.deepcopy(val)
+                    return node
+            for fn in [x for x in c.body if isinstance(x, ast.FunctionDef)]:
+                R().visit(fn)
+            left = sum(1 for n in ast.walk(tree) if isinstance(n, ast.Attribute) and n.attr == name) + sum(1 for n in ast.walk(c) if isinstance(n, ast.Name) and n.id == name and isinstance(n.ctx, ast.Load))
+            if hit and not left:
+                c.body[:] = [x for x in c.body if x is not st] or [ast.Pass()]
+            if hit:
+                done.append(f"{c.name}.{name}")
+    # module level
+    for name, (st, val) in level_consts(tree).items():
+        if name in ref_mod or stores_name.get(name, 0) != 1 or name in stores_attr:
+            continue
+        shadow = any(isinstance(n, ast.arg) and n.arg == name for n in ast.walk(tree))
+        if shadow:
+            continue
+        hit = 0
+        class M(ast.NodeTransformer):
+            def visit_Name(self, node):
+                nonlocal hit
+                if node.id == name and isinstance(node.ctx, ast.Load):
+                    hit += 1
+                    return copy.deepcopy(val)
+                return node
+        for other in tree.body:
+            if other is not st:
+                M().visit(other)
+        if hit:
+            tree.body[:] = [x for x in tree.body if x is not st]
+            done.append(name)
+    return done
